@@ -16,6 +16,8 @@ package main
 // print-bookkeeping: print applied directly to results that carry internal bookkeeping
 // (missing elements and members, string characters, method values, results of ++ and
 // assignments, match results): null is the word null in every position.
+// print-nested-writers: a print whose argument list calls functions that print themselves
+// (1-3 levels), executed repeatedly: every print writes its own arguments.
 
 import (
 	"fmt"
@@ -922,5 +924,290 @@ func init() {
 				c17BKCase(emit, "print "+strings.Join(exprs, ", "), strings.Join(tops, " ")+"\n", 0, "list", fmt.Sprintf("%d-arguments", k))
 			}
 		},
+	})
+}
+
+// ---------------------------------------------------------------- writers inside a print list
+
+// print-nested-writers: a print (or printf) whose argument list calls functions that themselves
+// print (1-3 levels deep, 1-5 arguments on each level), executed again and again -- over several
+// records, in loops, after prints of other widths. Every print writes ITS OWN arguments: the
+// lines of the inner prints come first (the arguments are evaluated before anything of the
+// outer line is written), then the outer line with the values the calls returned. The
+// reference below runs the same little program on integers.
+
+// c17WArg is one argument of a print inside a writer function (or of the top statement)
+type c17WArg struct {
+	kind int    // 0 literal text, 1 parameter + c, 2 call of function fn with (parameter + c)
+	lit  string // kind 0: the jqawk expression and its rendering
+	show string
+	c    int
+	fn   int
+}
+
+type c17WFn struct {
+	id     int
+	printf bool // writes its line with printf instead of print
+	args   []c17WArg
+	second []c17WArg // an optional second print (no calls) after the first
+}
+
+func (f *c17WFn) ret(x int) int { return 2*x + f.id }
+
+func c17WArgs(r *rand.Rand, n int, deeper []int, callProb float64) []c17WArg {
+	lits := [][2]string{{"'t'", "t"}, {"\"two words\"", "two words"}, {"7", "7"}, {"null", "null"}, {"true", "true"}, {"[1, 2]", "[1, 2]"}, {"''", ""}, {"{k: 'v'}", `{"k": "v"}`}}
+	args := make([]c17WArg, n)
+	for i := range args {
+		switch {
+		case len(deeper) > 0 && chance(r, callProb):
+			args[i] = c17WArg{kind: 2, fn: pick(r, deeper), c: r.Intn(4)}
+		case chance(r, 0.5):
+			args[i] = c17WArg{kind: 1, c: r.Intn(10)}
+		default:
+			l := pick(r, lits)
+			args[i] = c17WArg{kind: 0, lit: l[0], show: l[1]}
+		}
+	}
+	return args
+}
+
+func c17WExprs(args []c17WArg, param string) []string {
+	out := make([]string, len(args))
+	for i, a := range args {
+		arg := param
+		if a.c != 0 {
+			arg = fmt.Sprintf("%s + %d", param, a.c)
+		}
+		switch a.kind {
+		case 0:
+			out[i] = a.lit
+		case 1:
+			out[i] = arg
+			if a.c != 0 {
+				out[i] = "(" + arg + ")"
+			}
+		default:
+			out[i] = fmt.Sprintf("w%d(%s)", a.fn, arg)
+		}
+	}
+	return out
+}
+
+// c17WLine writes what a print / printf statement with these arguments writes, after running the calls
+func c17WLine(fns []*c17WFn, args []c17WArg, x int, printf bool, out *strings.Builder) {
+	parts := make([]string, len(args))
+	for i, a := range args {
+		switch a.kind {
+		case 0:
+			parts[i] = a.show
+		case 1:
+			parts[i] = strconv.Itoa(x + a.c)
+		default:
+			parts[i] = strconv.Itoa(c17WRun(fns, fns[a.fn], x+a.c, out))
+		}
+	}
+	if printf {
+		out.WriteString("<" + strings.Join(parts, "|") + ">\n")
+	} else {
+		out.WriteString(strings.Join(parts, " ") + "\n")
+	}
+}
+
+func c17WRun(fns []*c17WFn, f *c17WFn, x int, out *strings.Builder) int {
+	c17WLine(fns, f.args, x, f.printf, out)
+	if f.second != nil {
+		c17WLine(fns, f.second, x, false, out)
+	}
+	return f.ret(x)
+}
+
+func c17WStmt(args []c17WArg, param string, printf bool) string {
+	ex := c17WExprs(args, param)
+	if printf {
+		vs := make([]string, len(ex))
+		for i := range vs {
+			vs[i] = "%v"
+		}
+		return "printf('<" + strings.Join(vs, "|") + ">\\n', " + strings.Join(ex, ", ") + ")"
+	}
+	return "print " + strings.Join(ex, ", ")
+}
+
+func c17GenNestedWriters(r *rand.Rand, tier string, emit func(Case)) {
+	one := func(levels int, forceTop int, row string) {
+		// functions w0.. : level 1 functions may call level 2, those level 3
+		var fns []*c17WFn
+		byLevel := make([][]int, levels+1)
+		for lv := levels; lv >= 1; lv-- {
+			for k := 1 + r.Intn(2); k > 0; k-- {
+				byLevel[lv] = append(byLevel[lv], -1)
+			}
+		}
+		id := 0
+		for lv := 1; lv <= levels; lv++ {
+			for k := range byLevel[lv] {
+				byLevel[lv][k] = id
+				id++
+			}
+		}
+		fns = make([]*c17WFn, id)
+		for lv := levels; lv >= 1; lv-- {
+			for _, fid := range byLevel[lv] {
+				var deeper []int
+				if lv < levels {
+					deeper = byLevel[lv+1]
+				}
+				f := &c17WFn{id: fid, printf: chance(r, 0.2), args: c17WArgs(r, 1+r.Intn(5), deeper, 0.4)}
+				if lv < levels {
+					// make sure the chain really goes down
+					has := false
+					for _, a := range f.args {
+						has = has || a.kind == 2
+					}
+					if !has {
+						f.args[r.Intn(len(f.args))] = c17WArg{kind: 2, fn: pick(r, deeper), c: r.Intn(3)}
+					}
+				}
+				if chance(r, 0.2) {
+					f.second = c17WArgs(r, 1+r.Intn(3), nil, 0)
+				}
+				fns[fid] = f
+			}
+		}
+		var sb strings.Builder
+		for _, f := range fns {
+			p := fmt.Sprintf("p%d", f.id)
+			sb.WriteString(fmt.Sprintf("function w%d(%s) {\n  %s\n", f.id, p, c17WStmt(f.args, p, f.printf)))
+			if f.second != nil {
+				sb.WriteString("  " + c17WStmt(f.second, p, false) + "\n")
+			}
+			sb.WriteString(fmt.Sprintf("  return 2 * %s + %d\n}\n", p, f.id))
+		}
+		// the statements under test: 1-3 print / printf statements whose lists call level-1 functions
+		type top struct {
+			args   []c17WArg
+			printf bool
+		}
+		var tops []top
+		for k := 1 + r.Intn(3); k > 0; k-- {
+			n := 1 + r.Intn(5)
+			if forceTop > 0 {
+				n = forceTop
+			}
+			t := top{args: c17WArgs(r, n, byLevel[1], 0.45), printf: chance(r, 0.2)}
+			if k == 1 {
+				has := false
+				for _, a := range t.args {
+					has = has || a.kind == 2
+				}
+				if !has {
+					t.args[r.Intn(len(t.args))] = c17WArg{kind: 2, fn: pick(r, byLevel[1]), c: r.Intn(3)}
+				}
+			}
+			tops = append(tops, t)
+		}
+		if chance(r, 0.3) {
+			// a wide print without calls first: whatever is kept between prints has seen five arguments
+			tops = append([]top{{args: c17WArgs(r, 5, nil, 0)}}, tops...)
+		}
+		nrec := 2 + r.Intn(4)
+		vals := make([]int, nrec)
+		docs := make([]string, nrec)
+		for i := range vals {
+			vals[i] = r.Intn(50)
+			docs[i] = fmt.Sprintf(`{"a": %d}`, vals[i])
+		}
+		doc := "[" + strings.Join(docs, ", ") + "]"
+		var want strings.Builder
+		runTops := func(x int) {
+			for _, t := range tops {
+				c17WLine(fns, t.args, x, t.printf, &want)
+			}
+		}
+		body := func(param string) string {
+			var b strings.Builder
+			for _, t := range tops {
+				b.WriteString("  " + c17WStmt(t.args, param, t.printf) + "\n")
+			}
+			return b.String()
+		}
+		where := pick(r, []string{"rule", "rule", "rule", "loop in BEGIN", "loop in a rule", "for-in in END", "function called per record", "while loop"})
+		switch where {
+		case "rule":
+			sb.WriteString("{\n" + body("$.a") + "}\n")
+			for _, v := range vals {
+				runTops(v)
+			}
+		case "loop in BEGIN":
+			n := 2 + r.Intn(4)
+			sb.WriteString(fmt.Sprintf("BEGIN {\n for (i = 0; i < %d; i++) {\n%s }\n}\n", n, body("i")))
+			for i := 0; i < n; i++ {
+				runTops(i)
+			}
+		case "loop in a rule":
+			sb.WriteString("{\n for (i = 0; i < 2; i++) {\n" + body("($.a + i)") + " }\n}\n")
+			for _, v := range vals {
+				runTops(v)
+				runTops(v + 1)
+			}
+		case "for-in in END":
+			sb.WriteString("{ seen[$index] = $.a }\nEND {\n for (e in seen) {\n" + body("e") + " }\n}\n")
+			for _, v := range vals {
+				runTops(v)
+			}
+		case "function called per record":
+			sb.WriteString("function each(q) {\n" + body("q") + "  return q\n}\n{ print 'rec', each($.a), $index }\n")
+			for i, v := range vals {
+				runTops(v)
+				want.WriteString(fmt.Sprintf("rec %d %d\n", v, i))
+			}
+		case "while loop":
+			sb.WriteString("{\n k = 0\n while (k < 3) {\n" + body("($.a * k)") + "  k++\n }\n}\n")
+			for _, v := range vals {
+				for k := 0; k < 3; k++ {
+					runTops(v * k)
+				}
+			}
+		}
+		prog, wantOut := sb.String(), want.String()
+		emit(Case{Req: RunReq(prog, nil, []File{{Name: "in.json", Data: []byte(doc)}}, false), Fields: c17Fields,
+			Meta: metaProg(prog, "input", doc, "where", where, "row", row, "col", where),
+			Oracle: func(i Resp) string {
+				if i["class"] != "ok" {
+					return "class=" + i["class"] + " msg=" + i["msg"] + " (the program cannot fail)"
+				}
+				got := string(i.Bytes("out"))
+				if got == wantOut {
+					return ""
+				}
+				gl, wl := strings.Split(got, "\n"), strings.Split(wantOut, "\n")
+				for k := 0; k < len(gl) && k < len(wl); k++ {
+					if gl[k] != wl[k] {
+						return fmt.Sprintf("line %d: a print wrote %q, its own arguments render as %q (lines of inner prints come first, then the outer line)", k+1, short(gl[k]), short(wl[k]))
+					}
+				}
+				return fmt.Sprintf("%d lines written, %d expected", len(gl)-1, len(wl)-1)
+			}, NonTrivial: func(i Resp) bool { return i["class"] == "ok" }})
+	}
+	// every depth x every width of the outer list, then random
+	for levels := 1; levels <= 3; levels++ {
+		for width := 1; width <= 5; width++ {
+			for k := tierN(tier, 6, 40); k > 0; k-- {
+				one(levels, width, fmt.Sprintf("%d levels, outer list of %d", levels, width))
+			}
+		}
+	}
+	n := tierN(tier, 1500, 25000)
+	for i := 0; i < n; i++ {
+		levels := 1 + r.Intn(3)
+		one(levels, 0, fmt.Sprintf("%d levels, random", levels))
+	}
+}
+
+func init() {
+	register(Family{
+		Name: "print-nested-writers", Prop: "C17",
+		Rule: "print and printf statements whose argument lists (1-5 arguments: literals of every kind, the parameter plus a constant, calls) call functions that themselves print / printf 1-5 arguments and call the next level (1-3 levels, 1-2 functions per level, sometimes a second print in the function), 1-3 such statements in a row (sometimes after a five-argument print without calls), executed repeatedly: in a rule over 2-5 records, in for / while / for-in loops in BEGIN, rules and END, in a function called from another print list per record; every depth x every width of the outer list, plus random; oracle (closed form): a reference run of the same program on integers -- the inner prints' lines first, then the outer line holding exactly its own arguments' renderings joined by one space; model comparison on class,out",
+		Gen:  c17GenNestedWriters,
 	})
 }
